@@ -814,6 +814,25 @@ ReplacementsSound ==
        => /\ ReplacementSound(pool, delta, lastAct'[2], Evicted(pool, lastAct'[2]))
           /\ lastRes'.ok => lastRes'.evict = Evicted(pool, lastAct'[2])
           /\ pool' \cap Evicted(pool, lastAct'[2]) = {}]_vars
+\* the same for a package that was evaluated as one replacement (AcceptMultipleTransactions with conflicts): txs = the package
+\* transactions evaluated together, P = the pool they were evaluated against, ev = what they replaced
+PkgReplacementSound(P, D, txs, ev) ==
+  LET N == SeqToSet(txs)
+      direct == UNION {Direct(P, t) : t \in N}
+  IN /\ ev = DescOf(P, direct)
+     /\ SumF([x \in TxIds |-> MFee(D, x)], N) >= SumF([x \in TxIds |-> MFee(D, x)], ev) + FeeAt(IncrRelay, SumF([x \in TxIds |-> VSize(x)], N))
+     /\ \A t \in N : ParentsIn(P, t) = {}                                                       \* no mempool ancestors: spends nothing it evicts
+     /\ Cardinality(ClustersOf(P, direct)) <= MaxReplClusters                                   \* Rule 5, on the package as a whole
+     /\ ImprovesDiagramN(P, D, N, ev)
+\* the unit AcceptPackage evaluates together: what the first pass leaves over (model of the first pass on the pre-state)
+PkgUnit(P, ET, U, C, D, MF, pkg, T) ==
+  PkgPass(pkg, 1, [p |-> P, et |-> ET, ev |-> {}, res |-> <<>>, q |-> <<>>, quit |-> FALSE], U, C, D, MF, T)
+PackageReplacementsSound ==
+  [][(lastAct'[1] = "pkg" /\ GateWhy(lastAct'[2]) = "ok") =>
+       LET u == PkgUnit(pool, etime, utxo, chain, delta, mf, lastAct'[2], now)
+           evm == lastRes'.evict \ u.ev
+       IN (~u.quit /\ Len(u.q) > 1 /\ evm # {} /\ SeqToSet(u.q) \subseteq pool' \cup evm)
+            => PkgReplacementSound(u.p, delta, u.q, evm)]_vars
 \* ------------------------------------------------------------------ C28: test-accept changes nothing and agrees with Submit
 TestAcceptPure == [][lastAct'[1] = "test" => UNCHANGED state]_vars
 \* Submit's answer from the same state; only the post-acceptance LimitMempoolSize step can turn an accepted
